@@ -367,6 +367,25 @@ def m_get_or_insert_with(it, a, ty, callee):
     return Ptr(p.cell, p.path + (0,))
 
 
+def m_mem_take(it, a, ty, callee):
+    """std::mem::take(&mut T) for the collection / Option types the code under test uses it on"""
+    p = a[0]
+    v = it.load(p)
+    if isinstance(v, Seq):
+        it.store(p, Seq((), v.kind))
+    elif isinstance(v, Adt) and v.ty == 'std::option::Option':
+        it.store(p, opt_none())
+    elif isinstance(v, MapModel):
+        it.store(p, MapModel(kind=v.kind))
+    elif isinstance(v, SetModel):
+        it.store(p, SetModel())
+    elif isinstance(v, Int):
+        it.store(p, Int(0, v.w, v.s))
+    else:
+        raise Inconclusive('std::mem::take of %r' % (v,))
+    return v
+
+
 def m_checked_sub(it, a, ty, callee):
     x, y = a
     lt = it.binop('Lt', x, y)
@@ -892,6 +911,7 @@ def install(it):
     A(r'core::num::<impl [ui]\w+>::wrapping_shr', lambda it, a, ty, c: it.binop('Shr', a[0], a[1]))
     A(r'<&*(?:u|i)(?:8|16|32|64|128|size) as std::cmp::PartialOrd(<.*>)?>::(lt|le|gt|ge)', m_ref_int_cmp)
     A(r'std::option::Option::<.*>::get_or_insert_with::<.*>', m_get_or_insert_with)
+    A(r'std::mem::take::<.*>', m_mem_take)
     A(r'<\(.*\) as std::cmp::Ord>::cmp', m_tuple_cmp)
     A(r'<(?:u|i)(?:8|16|32|64|128|size) as std::cmp::Ord>::cmp', lambda it, a, ty, c: it.binop('Cmp', deref(it, a[0]), deref(it, a[1])))
     A(r'<(?:u|i)(?:8|16|32|64|128|size) as std::cmp::Ord>::min', m_min_max('min'))
